@@ -12,7 +12,7 @@ def gen_consts(v):
                             os.path.join(v.VERIF, 'props', ID, 'coq', 'Gen.v'))
 
 NPH = 3
-SPEC_KEYS = [k + str(i) for i in range(NPH) for k in ('done', 'cb', 'st', 'uids')]
+SPEC_KEYS = [k + str(i) for i in range(NPH) for k in ('done', 'cb', 'st', 'uids')] + ['ev', 'idle']
 INTERNAL_KEYS = []
 
 RULE = ('populations of 0-64 responders (UIDs at 0000:00000000/1/2, ffff:fffffffe, ffff:ffffffff, both sides of '
@@ -20,7 +20,10 @@ RULE = ('populations of 0-64 responders (UIDs at 0000:00000000/1/2, ffff:fffffff
         'responders (keeps answering when muted, never ACKs mute, ignores range, short/long/corrupt/no-preamble '
         'reply, flaky mute, silent), followed by an incremental run after arrivals/departures; scripted answer '
         'streams (timeouts, collisions, valid frames of recurring UIDs, mutated frames of every length 0-32, '
-        'failure/attempt counters driven to 4/5/6) incl. an endless tail; every Branch/MuteDevice/UnMuteAll call '
+        'failure/attempt counters driven to 4/5/6) incl. an endless tail; client histories on an asynchronous line '
+        '(full/incremental Starts in any order, a Start while one is running, a Start issued from inside the '
+        'completion callback, Abort() at any point incl. the incremental mute phase, population changes between '
+        'runs, state carried from run to run) with every completion event (start id, status, UID set) compared; every Branch/MuteDevice/UnMuteAll call '
         'of the real agent is compared with the model (first 120 verbatim, all by hash and count), as are '
         'completion count, status and UID set; non-trivial = run completed and found >= 1 UID; '
         'distinct = distinct model output line')
@@ -29,8 +32,8 @@ ASSUMPTIONS = ['the DiscoveryTargetInterface answers every request exactly once 
                'operator new does not fail']
 TRUSTED = ['modelled rather than verified: DiscoveryAgent.cpp InitDiscovery/UnMuteComplete/MaybeMuteNextDevice/'
            'IncrementalMuteComplete/SendDiscovery/BranchComplete/BranchMuteComplete/HandleCollision/'
-           'SplitAroundBadUID/FreeCurrentRange, UID(uint64)/ToUInt64/cmp, UIDSet add/remove/contains; '
-           'Abort() is not modelled; constants regenerated into Gen.v',
+           'SplitAroundBadUID/FreeCurrentRange/Abort, UID(uint64)/ToUInt64/cmp, UIDSet add/remove/contains, and the '
+           'client protocol of Session.v (refused / nested Start, Abort); constants regenerated into Gen.v',
            'the responder-population simulator exists twice (Model.v line_* and harness.cpp PopAnswer) and the two '
            'are compared only through the runs']
 
@@ -148,6 +151,9 @@ def gen_cases(rng, tier):
             f = frame(u, pre, rng.choice([0, 0, 1]))
             f = (f + [0x52] * 40)[:L] if rng.random() < 0.5 else f[:L]
             yield '200 f:A,A,A,%s,A,T~T' % ('Y' + hx(f) if f else 'T')
+    # --- client histories (Abort, refused and nested Starts, state carried between runs)
+    for i in range(600 if quick else 20000):
+        yield gen_history(rng)
     # --- populations: conforming, all sizes; then incremental after arrivals / departures
     for i in range(npop):
         r = rng.random()
@@ -196,29 +202,69 @@ def gen_cases(rng, tier):
             body.append(rng.choice(['V%d' % y, 'V%d' % y, 'V%d' % z, 'C', 'A', 'A', 'T']))
         yield '3000 f:%s~T' % ','.join(body)
 
+def gen_history(rng):
+    """client histories: starts (full/incremental, callback that starts another one), aborts at any point,
+    replies in chunks, population changes; state is carried from run to run"""
+    n = rng.choice([0, 1, 2, 3, 4, 5, 6, 8])
+    pop = gen_pop(rng, n, rng.choice([0, 0, 0, 1]), rng.random() < 0.3)
+    pop = [[u, k if not (k & 4) else 0] for u, k in pop]
+    ops = ['P:' + pop_s(pop)]
+    style = rng.randrange(6)
+    def start():
+        return 'S' + rng.choice('FI') + rng.choice('nnnfi')
+    if style == 0:
+        # abort inside the "mute previously known devices" phase of an incremental run, then a full run
+        ops += ['SFn', 'R*', 'SIn', 'R%d' % rng.choice([3, 3 + rng.randrange(0, n + 1), 4, 5]), 'A',
+                rng.choice(['SFn', 'SFn', 'SIn', 'SFi']), 'R*', 'SIn', 'R*']
+    elif style == 1:
+        # a second Start while one is running; nested Start from the completion callback
+        ops += [start(), 'R%d' % rng.randrange(0, 12), start(), 'R*', 'R*', start(), 'R*', 'R*']
+    elif style == 2:
+        # Abort whose callback starts the next run
+        ops += ['S' + rng.choice('FI') + rng.choice('fi'), 'R%d' % rng.randrange(0, 40), 'A', 'R*', 'SIn', 'R*']
+    else:
+        for _ in range(rng.randrange(3, 12)):
+            r = rng.random()
+            if r < 0.3: ops.append(start())
+            elif r < 0.55: ops.append('R%d' % rng.choice([0, 1, 2, 3, 4, 5, 7, 10, 20, 50, 200]))
+            elif r < 0.7: ops.append('R*')
+            elif r < 0.82: ops.append('A')
+            elif r < 0.9:
+                pop = [p for p in change(rng, pop) if not (p[1] & 4)]
+                ops.append('P:' + pop_s(pop))
+            else:
+                ops.append('X:' + rng.choice(['T', 'A', 'C', 'V%d' % rng.choice(uid_pool(rng)),
+                                              mutated_tok(rng, uid_pool(rng))]))
+        ops += ['R*']
+    return 'H 2500 ' + ' '.join(ops)
+
 def nontrivial(payload, md):
+    if payload.startswith('H '):
+        return md.get('ev') not in (None, 'none') and ':1:' in md.get('ev', '')
     return md.get('done0') == '1' and md.get('uids0') not in (None, '-', 'none')
 
 LEVEL_TEXT = ('Coq theorems over an executable step-machine model of DiscoveryAgent (the code with the two C11 fixes): '
-              'c11_terminates - for EVERY stream of answers from the RDM line (silence, collisions, corrupt/truncated '
-              'replies, refused mutes, out-of-range or repeated UIDs) a full or incremental discovery runs the '
-              'completion callback exactly once after finitely many transactions and never reaches a modelled memory '
-              'hazard (lexicographic measure); c11_complete - against conforming responders (answer a DUB iff un-muted '
-              'and in range, honour mute/un-mute) a full discovery returns status true and exactly the connected set, '
-              'for every duplicate-free set of UIDs below the broadcast UID (big-step lemma by strong induction on '
-              'the range width); c11_incremental - an incremental discovery from any earlier result returns exactly '
-              'the now-connected set (previously known that still ACK mute + new). Completeness assumes, as an '
-              'explicit hypothesis, that the bytes seen when several responders answer do not decode as a valid '
-              'reply. The pre-fix code is refuted by two machine-checked witnesses (bounded: no completion after '
-              '2000 transactions). Model tied to the C++ by a differential check of every Branch/MuteDevice/'
-              'UnMuteAll call, completion count, status and UID set.')
+              'c11_terminates - for EVERY stream of answers from the RDM line a full or incremental discovery runs the '
+              'completion callback exactly once after finitely many transactions and reaches no modelled memory hazard; '
+              'c11_sessions - for EVERY history of Starts (full/incremental, also from inside a completion callback), '
+              'replies and Abort()s with state carried between runs: no Start is completed twice, every Start has been '
+              'completed exactly once except the one owning the running discovery, which completes under any further '
+              'replies; c11_refused_start / c11_abort / c11_nested_start say what a refused Start, an Abort and a Start '
+              'from inside the callback do; c11_complete / c11_complete_any_state - against conforming responders a '
+              'full discovery started in ANY idle state (whatever earlier, possibly aborted, runs left) returns status '
+              'true and exactly the connected set; c11_incremental - an incremental discovery returns exactly the '
+              'now-connected set. Completeness assumes explicitly that the bytes of a collision do not decode as a '
+              'valid reply. The pre-fix code is refuted by two machine-checked witnesses (bounded). Model tied to the '
+              'C++ by a differential check of every Branch/MuteDevice/UnMuteAll call and every completion event on an '
+              'asynchronous line.')
 LEVEL_NOTE = ('Trusted: Coq kernel (incl. vm_compute for witnesses/examples), extraction (ExtrOcamlBasic), OCaml/C++ '
-              'glue, generator coverage; model = code is validated by differential testing, not proved. Theorems '
-              'assume the target answers each request once (no Abort(), no second Start while running) and that a '
-              'DUB reply length fits unsigned int. The conforming line of c11_complete/c11_incremental (E120.v '
-              'e_step/e_branch) is a Coq definition; the populations run by the harness use byte-wise OR of the '
-              'colliding frames instead of the abstract collision frame, so phantom UIDs from collisions are covered '
-              'by c11_terminates and by the differential check, not by the completeness theorems. "uids = S" is '
-              'stated as equality of membership.')
+              'glue, generator coverage; model = code is validated by differential testing, not proved. Assumed: the '
+              'target answers each request at most once and never from inside the request call; a reply that is in '
+              'flight when Abort() is called is dropped by the line (late replies after an Abort are NOT modelled); '
+              'Abort() is not called from inside a completion callback (by reading, the unchanged code would run that '
+              'callback twice); a DUB reply length fits unsigned int. The conforming line of the completeness theorems '
+              'is a Coq definition (E120.v); harness populations use byte-wise OR of colliding frames, so phantom UIDs '
+              'from collisions are covered by termination and the differential check only. "uids = S" is stated as '
+              'equality of membership.')
 TECHNIQUE = 'Coq proof on hand-written executable model + extracted-model/implementation differential correspondence'
 DESIGN_REF = 'DESIGN.md §4 C11'
